@@ -219,6 +219,53 @@ class RecRhythm:
         return self.inner.initialise_line(*a, **k)
 
 
+class SimRLock:
+    """A re-entrant lock in the simulated world.  Only one thread ever runs at a time here (the main thread, or one
+    handler while the main thread sleeps), so ownership is a name and a count; a thread that finds the lock taken
+    - its owner asleep in virtual time - lets virtual time pass until it is released, as blocking would.  (A real
+    lock would block the simulator itself: the owner can only wake up when the clock moves.)"""
+
+    def __init__(self, sim):
+        self.sim, self.owner, self.count = sim, None, 0
+
+    def acquire(self, blocking=True, timeout=-1):
+        me = threading.get_ident()
+        waited = 0.0
+        while self.owner not in (None, me):
+            if not blocking or (timeout is not None and 0 <= timeout <= waited):
+                return False
+            self.sim.sleep(0.0005)
+            waited += 0.0005
+        self.owner = me
+        self.count += 1
+        return True
+
+    def release(self):
+        if self.owner != threading.get_ident():
+            raise RuntimeError("cannot release un-acquired lock")
+        self.count -= 1
+        if self.count == 0:
+            self.owner = None
+
+    def locked(self):
+        return self.owner is not None
+
+    __enter__ = acquire
+
+    def __exit__(self, *a):
+        self.release()
+
+
+_LOCK_TYPES = (type(threading.Lock()), type(threading.RLock()))
+
+
+def sim_locks(obj, sim):
+    """Replace the locks an object of the repository holds by locks of the simulated world."""
+    for name, v in list(vars(obj).items()):
+        if isinstance(v, _LOCK_TYPES):
+            setattr(obj, name, SimRLock(sim))
+
+
 class StubRhythm(Rhythm):
     """Op-level rhythm: every wait is one fixed sleep, nothing else happens (whatever else is asked of it)."""
 
@@ -536,6 +583,7 @@ def run(scenario, make_agents=None):
         bot = Bot(tower, gen, bot_cfg["up_down_in"], bot_cfg["stop_at_rounds"], bot_cfg["call_comps"],
                   RecRhythm(rhythm, sim), user_name=bot_cfg.get("user_name"),
                   server_instance_id=bot_cfg.get("server_id"))
+        sim_locks(bot, sim)
         sim.bot = bot
         sim.tower = tower
         sim.rhythm = rhythm
@@ -662,7 +710,14 @@ def _run_main(sim, sc):
         def __init__(self, *a, **k):
             super().__init__(*a, **k)
             sim.tower = self
-    wmain.create_rhythm, wmain.RingingRoomTower = create_rhythm, Tower
+    real_bot = wmain.Bot
+
+    class SimBot(real_bot):
+        def __init__(self, *a, **k):
+            super().__init__(*a, **k)
+            sim_locks(self, sim)
+            sim.bot = self
+    wmain.create_rhythm, wmain.RingingRoomTower, wmain.Bot = create_rhythm, Tower, SimBot
     crashed, exited = None, False
     try:
         wmain.main(list(sc["argv"]))
@@ -676,7 +731,7 @@ def _run_main(sim, sc):
     except Exception as e:  # noqa
         crashed = type(e).__name__
     finally:
-        wmain.create_rhythm, wmain.RingingRoomTower = real_create, real_tower
+        wmain.create_rhythm, wmain.RingingRoomTower, wmain.Bot = real_create, real_tower, real_bot
         implrun.HTTP.routes = saved_routes
     return crashed, exited
 
